@@ -26,10 +26,6 @@
      virtualQubit: curr_sim_node => CUR
      virtualQubit: locked_node (assigned from _lock_simulating_node(…)) => CUR
      virtualQubit: node => ALL
-   flags (method: local variable whose None-ness is tracked => flag number):
-     virtualNode.remote_netqasm_send_epr_half: locked_node => 0
-     virtualNode.remote_netqasm_send_qubit: locked_node => 0
-     virtualNode.remote_send_qubit: locked_node => 0
    notes:
      `d.called` after `cancel()` is always true (a cancelled Deferred counts as called): only the then-branch is kept   [in: virtualQubit._lock_nodes, virtualQubit._two_qubit_gate, virtualQubit.remote_cnot_onto, virtualQubit.remote_cphase_onto]
      `if self._lock.locked:` guarding a release is kept as an unconditional release (DeferredLock has no owner: it frees the lock whoever holds it)   [in: virtualNode._release_global_lock, virtualNode.remote_add_qubit, virtualNode.remote_netqasm_send_epr_half, virtualNode.remote_netqasm_send_qubit, virtualNode.remote_new_qubit, virtualNode.remote_new_qubit_inreg, virtualNode.remote_release_global_lock, virtualNode.remote_send_qubit]
@@ -286,44 +282,8 @@ def remote_netqasm_send_qubit : Stmt :=
               (tryExcept
                 (call RECV "add_qubit" false)
                 (raise .remote))
-              (block [
-                -- inlined virtualQubit._lock_simulating_node
-                scope
-                  (loop
-                    (block [
-                      Stmt.ite .any
-                        (block [
-                          setFlag 0 false,
-                          ret
-                        ])
-                        (skip),
-                      acquire CUR false,
-                      Stmt.ite .any
-                        (block [
-                          release CUR,
-                          cont
-                        ])
-                        (block [
-                          alias CUR (SIM c),
-                          setFlag 0 true,
-                          ret
-                        ]),
-                      setFlag 0 false
-                    ])),
-                tryExcept
-                  (block [
-                    tryExcept
-                      (call (SIM c) "get_sim_number" true)
-                      (raise .remote),
-                    tryExcept
-                      (call (SIM c) "transfer_qubit" false)
-                      (raise .remote)
-                  ])
-                  (skip),
-                Stmt.ite (.isSet 0)
-                  (release CUR)
-                  (skip)
-              ]),
+              -- AttributeError: virtualNode has no method _lock_simulating_node
+              (raise .other),
             mutate SELF "qubit.active",
             mutate SELF "self.virtQubits"
           ])
@@ -368,44 +328,8 @@ def remote_netqasm_send_epr_half : Stmt :=
                 (tryExcept
                   (call RECV "add_qubit" false)
                   (raise .remote))
-                (block [
-                  -- inlined virtualQubit._lock_simulating_node
-                  scope
-                    (loop
-                      (block [
-                        Stmt.ite .any
-                          (block [
-                            setFlag 0 false,
-                            ret
-                          ])
-                          (skip),
-                        acquire CUR false,
-                        Stmt.ite .any
-                          (block [
-                            release CUR,
-                            cont
-                          ])
-                          (block [
-                            alias CUR (SIM c),
-                            setFlag 0 true,
-                            ret
-                          ]),
-                        setFlag 0 false
-                      ])),
-                  tryExcept
-                    (block [
-                      tryExcept
-                        (call (SIM c) "get_sim_number" true)
-                        (raise .remote),
-                      tryExcept
-                        (call (SIM c) "transfer_qubit" false)
-                        (raise .remote)
-                    ])
-                    (skip),
-                  Stmt.ite (.isSet 0)
-                    (release CUR)
-                    (skip)
-                ]),
+                -- AttributeError: virtualNode has no method _lock_simulating_node
+                (raise .other),
               mutate SELF "qubit.active",
               mutate SELF "self.virtQubits"
             ])
@@ -445,44 +369,8 @@ def remote_send_qubit : Stmt :=
           (tryExcept
             (call RECV "add_qubit" false)
             (raise .remote))
-          (block [
-            -- inlined virtualQubit._lock_simulating_node
-            scope
-              (loop
-                (block [
-                  Stmt.ite .any
-                    (block [
-                      setFlag 0 false,
-                      ret
-                    ])
-                    (skip),
-                  acquire CUR false,
-                  Stmt.ite .any
-                    (block [
-                      release CUR,
-                      cont
-                    ])
-                    (block [
-                      alias CUR (SIM c),
-                      setFlag 0 true,
-                      ret
-                    ]),
-                  setFlag 0 false
-                ])),
-            tryExcept
-              (block [
-                tryExcept
-                  (call (SIM c) "get_sim_number" true)
-                  (raise .remote),
-                tryExcept
-                  (call (SIM c) "transfer_qubit" false)
-                  (raise .remote)
-              ])
-              (skip),
-            Stmt.ite (.isSet 0)
-              (release CUR)
-              (skip)
-          ]),
+          -- AttributeError: virtualNode has no method _lock_simulating_node
+          (raise .other),
         mutate SELF "qubit.active",
         mutate SELF "self.virtQubits"
       ])
@@ -571,8 +459,7 @@ def remote_remove_sim_qubit_num : Stmt :=
                   cont
                 ])
                 (skip))),
-          mutate SELF "self.simQubits",
-          mutate SELF "delQubit.active"
+          mutate SELF "self.simQubits"
         ])
         -- for each q of REGDEL
         (block [
@@ -615,8 +502,7 @@ def _remove_sim_qubit : Stmt :=
                 cont
               ])
               (skip))),
-        mutate SELF "self.simQubits",
-        mutate SELF "delQubit.active"
+        mutate SELF "self.simQubits"
       ])
       -- for each q of REGDEL
       (block [
@@ -1183,8 +1069,7 @@ def remote_measure : Stmt :=
               (block [
                 call (SIM c) "get_sim_number" true,
                 call (SIM c) "remove_sim_qubit_num" false,
-                mutate SELF "self.virtNode.root.virtQubits",
-                mutate SELF "self.active"
+                mutate SELF "self.virtNode.root.virtQubits"
               ])
               (skip)
           ])
